@@ -36,7 +36,10 @@ pub struct State {
     pub stack: Stack,
 
     /// Memoization table mapping indices to stack objects
+    #[cfg(not(feature = "verif-hooks"))]
     pub memo: HashMap<usize, StackObjectRef>,
+    #[cfg(feature = "verif-hooks")]
+    pub memo: HashMap<usize, StackObjectRef, crate::verif::MemoHasher>,
 }
 
 impl State {
